@@ -290,5 +290,5 @@ FLOORS = {"nontrivial": ("", 0.08), "interleaved schedule": ("", 0.4)}
 
 def plan(tier, seed):
     q = tier == "quick"
-    return [("generated", {"examples": 64 if q else 800, "profile": ["full", "trees", "lengths", "trees"][i % 4]})
+    return [("generated", {"examples": 64 if q else 2000, "profile": ["full", "trees", "lengths", "trees"][i % 4]})
             for i in range(16)]
